@@ -157,3 +157,68 @@ func ZZ_RegistrationHistory() {
 		verif.Cover("history with a rejection")
 	}
 }
+
+type zzBlockingCtrl struct {
+	zzCtrl
+	started, stopped bool
+}
+
+func (p *zzBlockingCtrl) Run(ctx context.Context, r controller.Runtime, _ *zap.Logger) error {
+	p.started = true
+	<-ctx.Done()
+	p.stopped = true
+	return nil
+}
+
+// ZZ_WatchErrorStopsRuntime (C16): if an underlying watch fails the runtime stops and
+// returns that error; on cancellation Run returns with every goroutine stopped.
+func ZZ_WatchErrorStopsRuntime() {
+	ctx, cancel := context.WithCancel(context.Background())
+	defer cancel()
+	st := state.WrapCore(namespaced.NewState(inmem.Build))
+	rt, err := NewRuntime(st, zap.NewNop(), options.WithMetrics(false))
+	verif.Assert(err == nil, "runtime created")
+	c := &zzBlockingCtrl{zzCtrl: zzCtrl{name: "blocker", inputs: []controller.Input{{Namespace: "ns", Type: "A.test", Kind: controller.InputWeak}}}}
+	verif.Assert(rt.RegisterController(c) == nil, "controller registered")
+	before := verif.NumThreads()
+	var runErr error
+	done := false
+	go func() { runErr = rt.Run(ctx); done = true }()
+	verif.Quiesce()
+	verif.Assert(c.started && !done, "runtime and controller are running")
+	boom := errZZ("watch buffer overrun")
+	if verif.Choose("stopBy", 2) == 0 {
+		verif.Case("watch error")
+		rt.watchCh <- []state.Event{{Type: state.Errored, Error: boom}}
+		verif.Quiesce()
+		verif.Assert(done, "a failed watch stops the runtime instead of running on stale notifications")
+		verif.Assert(runErr != nil && isZZ(runErr, boom), "Run returns the watch error")
+		verif.Cover("watch error stops runtime")
+	} else {
+		verif.Case("cancellation")
+		cancel()
+		verif.Quiesce()
+		verif.Assert(done && runErr == nil, "on cancellation Run returns without error")
+		verif.Cover("cancelled")
+	}
+	verif.Assert(c.stopped, "the controller was stopped before Run returned")
+	verif.Assert(verif.NumThreads() == before, "no goroutine of the runtime, its watches or hooks is left behind")
+}
+
+type errZZ string
+
+func (e errZZ) Error() string { return string(e) }
+
+func isZZ(err error, target errZZ) bool {
+	for err != nil {
+		if e, ok := err.(errZZ); ok {
+			return e == target
+		}
+		u, ok := err.(interface{ Unwrap() error })
+		if !ok {
+			return false
+		}
+		err = u.Unwrap()
+	}
+	return false
+}
